@@ -10,6 +10,7 @@ CONSTANTS
   MaxInits = 1
   Irvs = {11}
   WithFunc = "no"
+  MaxAnn = 3
   EmitOn = TRUE
 SPECIFICATION Spec
 CONSTRAINT Bound
